@@ -122,6 +122,7 @@ def _condition():
     queries on the emptied grid.  Whatever a class remembers outside the instance (a memo of
     empty neighbourhoods, a shared cell list) is then in its worst state, deterministically."""
     spatial_grid = _lib()
+    core.rejected(spatial_grid.Index, [[[0, 0]]], 3, True)                     # a path without an end
     cond = spatial_grid.Index([[list(a), list(b)] for a, b in COND_PATHS], 8, True)
     spots = [(col + 0.5, row + 0.5) for col in (-1, 3, 8) for row in (-1, 4, 8)]
     for victim in range(len(COND_PATHS)):
@@ -342,7 +343,7 @@ def run(ctx):
     jobs = []
     ones = [(p,) for p in all_paths]
     jobs += [(chunk, [1, 2, 3, 4, 5], queries, True) for chunk in core.split(ones, 8)]
-    for scale in (0.125, 16):
+    for scale in (0.125, 16, 2.0 ** 200, 2.0 ** -200):
         jobs += [(chunk, [1, 2, 3, 4], queries, False, scale) for chunk in core.split(ones, 8)]
     # the same drawings 2^50 units from the origin along one axis (coordinates stay exact; the
     # margin an index adds around its extent is far below one unit in the last place there)
@@ -386,7 +387,7 @@ def run(ctx):
                 "side x reverse in {False, True}; per index every removal order; in every "
                 "distinct removed-set state nearest() for the query lattice (inside, on and "
                 "outside the grid, cell borders); states reached by different orders compared "
-                "field by field; the one-path sets again scaled by 1/8 and by 16 and shifted by 2^50 along either axis; 625 two-path sets "
+                "field by field; the one-path sets again scaled by 1/8, 16, 2^200 and 2^-200 and shifted by 2^50 along either axis; 625 two-path sets "
                 "with ends on a 3/64 lattice straddling a cell wall queried on a 1/64 lattice; "
                 "3 (4) layouts of 41..150 (400) paths x bins {3,6,10,13} x reverse x "
                 "three removal orders queried after every removal; non-trivial = indexes with "
